@@ -25,6 +25,12 @@ pub fn build_pass_1(
     common_context: &CommonContext,
 ) -> Result<BuildResultPass1, Error> {
     let device = common_context.get_device();
+    #[cfg(feature = "verif")]
+    crate::verif::emit(format!(
+        "\"ev\":\"pass1\",\"avr8l\":{},\"ram_start\":{}",
+        device.is_avr8l(),
+        device.ram_start
+    ));
     let mut segments = vec![];
     let mut code_offset = 0;
     let mut data_offset = device.ram_start;
